@@ -510,6 +510,8 @@ class Normaliser(object):
                 return None
         elif isinstance(f, ast.Name) and (mn, None, f.id) in self.helpers:
             h = self.helpers[(mn, None, f.id)]
+        elif isinstance(f, ast.Name):
+            h = self._imported_helper(mn, f.id)
         if h is None:
             return None
         if any(isinstance(a, ast.Starred) for a in call.args) or any(k.arg is None for k in call.keywords):
@@ -527,6 +529,45 @@ class Normaliser(object):
                     return None
                 binding[p] = h.defaults[p]
         return h, binding
+
+    def _module_bindings(self, mn):
+        """name -> origin of the module-level bindings of module mn: ('import', module, name) / ('def', mn, name)"""
+        memo = self.__dict__.setdefault('_mb_memo', {})
+        if mn in memo:
+            return memo[mn]
+        out = {}
+        t = self.trees.get(mn)
+        for s_ in (t.body if t is not None else []):
+            if isinstance(s_, ast.ImportFrom) and s_.module and not s_.level:
+                for a in s_.names:
+                    out[a.asname or a.name] = ('obj', s_.module, a.name)
+            elif isinstance(s_, ast.Import):
+                for a in s_.names:
+                    out[(a.asname or a.name).split('.')[0]] = ('mod', (a.name if a.asname else a.name.split('.')[0]), None)
+            elif isinstance(s_, (ast.FunctionDef, ast.ClassDef)):
+                out[s_.name] = ('obj', mn, s_.name)
+            elif isinstance(s_, ast.Assign):
+                for t_ in s_.targets:
+                    if isinstance(t_, ast.Name):
+                        out[t_.id] = ('obj', mn, t_.id)
+        memo[mn] = out
+        return out
+
+    def _imported_helper(self, mn, name):
+        """a new module-level helper of another module of the package, imported by name: usable when every global name its body reads
+        denotes the same object in the importing module (same import, or imported from the defining module)"""
+        b = self._module_bindings(mn).get(name)
+        if not b or b[0] != 'obj' or (b[1], None, b[2]) not in self.helpers or b[2] != name:
+            return None
+        h = self.helpers[(b[1], None, name)]
+        import builtins as _bi
+        local = set(h.params) | h.stored | h.nested_bound
+        here, there = self._module_bindings(mn), self._module_bindings(b[1])
+        for n in ast.walk(h.fn):
+            if isinstance(n, ast.Name) and isinstance(n.ctx, ast.Load) and n.id not in local and not hasattr(_bi, n.id):
+                if n.id not in there or here.get(n.id) != there[n.id]:
+                    return None
+        return h
 
     def _fresh(self, name):
         self.counter += 1
